@@ -18,6 +18,8 @@ L_EP = {"dr_pi_dag_set_edge_ptrs": [
   dict(loop_id="2", assigns="i, __CPROVER_object_whole(LN)", symbol_map=SM,
        invariants="j == m && 0 <= i && i <= n - 1 && (m == 0 || LE[g_k].u <= i) && (g_w <= i ==> " + PB("m") + ") && (g_w < i ==> " + PE("m") + ")"),
 ]}
+LIBC_DAG = ["malloc:verif_malloc_plan", "free:verif_free", "memset:verif_memset", "qsort:verif_qsort", "exit:verif_exit"]
+SCENS = ((0, "nothing contracted"), (1, "section A contracted"), (2, "section B contracted"), (3, "both sections contracted"))
 JOBS = [
   Job("c19.file.layout", "c19_file.c", "h_file_layout", replace_calls=IO,
       cbmc=["--unwind", "47", "--unwinding-assertions", "--sat-solver", "cadical"], safety=NOCONV, fuc=["dr_pi_dag_dump", "dr_read_dag"], timeout=200,
@@ -35,5 +37,17 @@ JOBS = [
       loops=L_EP, loop_counts={"dr_pi_dag_set_edge_ptrs": 3}, cbmc=["--unwind", str(LC_M + 3), "--unwinding-assertions", "--sat-solver", "cadical"], defines=["-DLC_N=%d" % LC_N, "-DLC_M=%d" % LC_M],
       fuc=["dr_pi_dag_set_edge_ptrs"], timeout=250,
       note="loop contracts on the three loops of the function (nothing unwound in it); bounded only by the harness arrays: n <= 16 nodes, m <= 32 edges"),
+] + [
+  Job("c19.wf_replay.s%d.bounded" % sc, "c19_dag.c", "h_wf_replay", kind="bounded", replace_calls=LIBC_DAG,
+      cbmc=["--unwind", "50", "--unwinding-assertions", "--sat-solver", "cadical"], defines=["-DDAG_SCEN=%d" % sc],
+      fuc=["dr_pi_dag_enum_edges", "dr_pi_dag_sort_edges", "dr_pi_dag_set_edge_ptrs", "dr_pi_dag_chronological_traverse"], timeout=200,
+      note="bounded: one concrete DAG of 14 nodes with a concrete serial schedule, contraction state at record time: %s" % what)
+  for sc, what in SCENS
+] + [
+  Job("c19.copy.s%d.c%d.bounded" % (sc, cs), "c19_dag.c", "h_copy", kind="bounded", replace_calls=LIBC_DAG,
+      cbmc=["--unwind", "30", "--unwinding-assertions", "--sat-solver", "cadical"], defines=["-DDAG_SCEN=%d" % sc, "-DCOPY_SCEN=%d" % cs],
+      fuc=["dr_copy_pi_dag", "dr_pi_dag_copy_and_prune_nodes", "dr_pi_dag_enum_edges", "dr_pi_dag_set_edge_ptrs", "dr_string_table_flatten"], timeout=250,
+      note="bounded: the same DAG, record-time state: %s; conversion-time setting: %s" % (what, cwhat))
+  for sc, what in SCENS for cs, cwhat in ((0, "keep everything"), (1, "contract one-worker sections"), (2, "contract everything shorter than 7 clocks"))
 ]
 META = {"level": "other", "assumptions": []}
